@@ -56,3 +56,56 @@ VENTRY(h_reuse)
     }
     if (it2 > 0) vcheck_indep(used->mean_residual_reduction_factor_, "old", "statistics-describe-this-solve-only", 0);
 }
+
+// setup() again on a used object (different problem size and/or options) = setup() on a fresh object with those options.
+// a: second config (extrapolation, strategy, DirBC), first size exponent, second size exponent, first config packed
+//    (extrapolation + 4*strategy + 8*DirBC), solve between the two setups (0/1), max_levels option (0: -1 = as many as possible)
+VENTRY(h_resetup)
+{
+    alignas(GMGPolar) static unsigned char buf1[sizeof(GMGPolar)];
+    alignas(GMGPolar) static unsigned char buf2[sizeof(GMGPolar)];
+    VConfig c2;
+    c2.extrapolation = a[0]; c2.strategy = a[1]; c2.dirbc = a[2]; c2.nr_exp = a[4]; c2.ntheta_exp = a[4]; c2.max_iterations = 1;
+    c2.max_levels = a[7] == 0 ? -1 : a[7];
+    VConfig c1 = c2;
+    c1.extrapolation = a[5] & 3; c1.strategy = (a[5] >> 2) & 1; c1.dirbc = (a[5] >> 3) & 1; c1.nr_exp = a[3]; c1.ntheta_exp = a[3];
+    GMGPolar* fresh = vmake_state(buf1, c2);
+    GMGPolar* used  = vmake_state(buf2, c1);
+    for (GMGPolar* g : {fresh, used}) { g->absolute_tolerance_ = std::nullopt; g->relative_tolerance_ = std::nullopt; }
+    // ---- the earlier life of `used`
+    used->setup();
+    if (a[6]) {
+        Level& L0 = used->levels_[0];
+        for (int i = 0; i < L0.grid().numberOfNodes(); i++) L0.rhs()[i] = vsym("f_old", i, 0);
+        used->solve();
+    }
+    vreach("first-life-done");
+    // ---- the user changes options through the setters (plain member writes) and sets the solver up again
+    used->nr_exp_ = c2.nr_exp; used->ntheta_exp_ = c2.ntheta_exp;
+    used->extrapolation_ = static_cast<ExtrapolationType>(c2.extrapolation);
+    used->stencil_distribution_method_ = static_cast<StencilDistributionMethod>(c2.strategy);
+    used->DirBC_Interior_ = c2.dirbc != 0;
+    used->setup();
+    fresh->setup();
+    vreach("both-set-up");
+    vcheck_true(used->number_of_levels_ == fresh->number_of_levels_, "same-number-of-levels", 0);
+    vcheck_true(used->levels_.size() == fresh->levels_.size(), "same-number-of-levels", 1);
+    if (used->levels_.size() != fresh->levels_.size()) return;
+    for (size_t l = 0; l < fresh->levels_.size(); l++) {
+        const PolarGrid &gu = used->levels_[l].grid(), &gf = fresh->levels_[l].grid();
+        vcheck_true(gu.nr() == gf.nr() && gu.ntheta() == gf.ntheta() && gu.numberSmootherCircles() == gf.numberSmootherCircles(), "same-level-grids", (int)l);
+        if (!(gu.nr() == gf.nr() && gu.ntheta() == gf.ntheta())) return;
+    }
+    for (GMGPolar* g : {fresh, used}) {
+        Level& L0 = g->levels_[0];
+        for (int i = 0; i < L0.grid().numberOfNodes(); i++) L0.rhs()[i] = vsym("f", i, 0);
+    }
+    fresh->solve();
+    used->solve();
+    vreach("both-solved");
+    vcheck_true(fresh->number_of_iterations_ == used->number_of_iterations_, "same-iteration-count", 0);
+    Level &F = fresh->levels_[0], &U = used->levels_[0];
+    for (int i = 0; i < F.grid().numberOfNodes(); i++) vcheck_eq(U.solution()[i], F.solution()[i], "same-solution", i);
+    vcheck_eq(used->mean_residual_reduction_factor_, fresh->mean_residual_reduction_factor_, "same-reduction-factor", 0);
+    vcheck_indep(used->levels_[0].solution()[0], "f_old", "result-independent-of-the-earlier-problem", 0);
+}
